@@ -14,6 +14,8 @@ def handle (toks : List String) : Option String :=
   | "c02.channels" :: _ => some "judge"
   | "c02.tamper" :: _ => some "judge"
   | "c02.shardtraffic" :: _ => some "judge"
+  | "c02.extraclasses" :: _ => some "judge"
+  | "c02.recorded" :: _ => some "judge"
   | _ => none
 
 def oracle (toks : List String) (impl : String) : Option String :=
@@ -61,6 +63,53 @@ def oracle (toks : List String) (impl : String) : Option String :=
       match gates.find? (fun g => (phaseOf g).isNone && !(["reshard_by_prf", "reshard_by_tag"].contains (g.headD ""))) with
       | some g => some s!"fails unclassified shard-to-shard channel {"/".intercalate g}"
       | none => some "holds"
+  | "c02.recorded" :: _ =>
+    -- **every gate on which multiplication traffic is sent inside a DZKP-validated step has its intermediates recorded
+    -- in that validator's batch** (the run-time side of theorem `dzkp_multiplications_recorded`): a helper-to-helper
+    -- gate that classifies as `dzkp` (protocol gates of a step with a DZKP validator; the proof gates classify as
+    -- `dzkpProof`) and is not an opening gate (`Generated.openGates`) must be among the gates pushed into a batch
+    if impl.startsWith "abort" || impl.startsWith "panic" || impl == "timeout" then
+      some "fails honest malicious-mode query did not complete"
+    else
+      match impl.splitOn " " with
+      | [t, r] =>
+        if !(t.startsWith "t:") || !(r.startsWith "r:") then some "fails malformed response" else
+        let parse := fun (x : String) => if x == "-" then [] else x.splitOn ","
+        let traffic := parse (t.drop 2).toString
+        let recorded := parse (r.drop 2).toString
+        if recorded.isEmpty then
+          some "fails no gate at all was recorded in a DZKP batch (is the `c02_note_push` hook call in Batch::push of dzkp_validator.rs present?)"
+        else
+          let normGate := fun (g : String) => (g.splitOn "/").map normSeg
+          let isOpen := fun (g : List String) => IpaVerif.Generated.openGates.any (fun o => isPrefix o g)
+          let mulGates := traffic.filter fun g => classify (normGate g) == some "dzkp" && !isOpen (normGate g)
+          if mulGates.isEmpty then some "fails no multiplication traffic of a DZKP step observed" else
+          match mulGates.find? (fun g => !recorded.contains g) with
+          | some g => some s!"fails multiplication traffic on gate {g} inside a DZKP-validated step, but the gate's intermediates were never recorded in the validator's batch: no proof covers it"
+          | none =>
+            -- and nothing is recorded outside the DZKP steps
+            match recorded.find? (fun g => classify (normGate g) != some "dzkp") with
+            | some g => some s!"fails gate {g} was recorded in a DZKP batch but belongs to no DZKP step of the coverage table"
+            | none => some "holds"
+      | _ => some "fails malformed response"
+  | "c02.extraclasses" :: shards :: _ =>
+    -- the last layers of the query must be there to be tampered with (suite c02_lastlayer): with two shards the
+    -- saturating addition of the finalize step, with one shard and more than one proof chunk of rows the saturating
+    -- addition of the second aggregation level; both halves (`add`, `select`), multiplication traffic from all three
+    -- helpers; and every listed class is covered by a protection mechanism
+    if impl.startsWith "abort" || impl.startsWith "panic" || impl == "timeout" then
+      some "fails honest malicious-mode query did not complete"
+    else
+      let rows := (impl.splitOn ",").map fun x => (x.splitOn ":")
+      let need : List String :=
+        if shards == "2" then ["finalize/add/add/bit#", "finalize/add/select/bit#"]
+        else ["aggregate/chunks#/fold#/saturating_add/add/bit#", "aggregate/chunks#/fold#/saturating_add/select/bit#"]
+      match need.find? (fun c => !(rows.contains [c, "123"])) with
+      | some c => some s!"fails gate class {c} (multiplication traffic from all three helpers) not observed: the last layer of the query is not exercised"
+      | none =>
+        match rows.find? (fun r => (classify ((r.headD "").splitOn "/")).isNone) with
+        | some r => some s!"fails helper-to-helper channel not covered by any protection mechanism: {r.headD ""}"
+        | none => some "holds"
   | "c02.tamper" :: _ =>
     if impl.startsWith "abort-or-same" || impl == "untouched" then some "holds"
     else if impl.startsWith "changed" then some "fails tampered run was accepted with a different histogram"
